@@ -39,8 +39,9 @@ KINDS = c08_extract.KINDS
 
 def gen() -> dict:
     f = c08_extract.extract()
-    common.write_if_changed(common.area_dir(AREA) / "GenSbmlFacts.v", c08_extract.to_coq(f))
-    return {k: v for k, v in f.items() if k != "variants"}
+    imp = c08_extract.extract_import()
+    common.write_if_changed(common.area_dir(AREA) / "GenSbmlFacts.v", c08_extract.to_coq(f, imp))
+    return {**{k: v for k, v in f.items() if k != "variants"}, "import": imp}
 
 
 # ---------------------------------------------------------------------------------------
@@ -133,18 +134,19 @@ def math_oracle(fn, params: list[str], args: list[str], out: tuple, flags: list[
         return "export accepted a function whose parameter count differs from the model arguments"
     if not out[3] or out[2] is None:
         return "the exported node is not a well-formed libSBML AST: setMath rejects it silently / its MathML is written without the operands"
+    names = list(dict.fromkeys(args))  # the model names, in order of first use: each has ONE value per point
     for pt in POINTS:
-        vals = pt[: len(params)]
+        env = {nm: pt[i % len(pt)] + (i // len(pt)) for i, nm in enumerate(names)}
+        vals = [env[a] for a in args]  # the function is called with the values of the names it is bound to
         pv = py_value(fn, vals)
         if pv is None:
             continue
-        env = dict(zip(args, vals)) | {"g50": None}
         try:
-            mv = eval_mathml(out[2], {k: v for k, v in env.items() if v is not None})
+            mv = eval_mathml(out[2], env)
         except c08_gen.Undefined as e:
-            return f"exported MathML has no value at {dict(zip(params, vals))} ({e}) where the function returns {pv}"
+            return f"exported MathML has no value at {env} ({e}) where the function called with {dict(zip(params, vals))} returns {pv}"
         if not close(pv, float(mv)):
-            return f"exported MathML evaluates to {mv} at {dict(zip(params, vals))}, the function returns {pv}"
+            return f"exported MathML evaluates to {mv} at {env}, the function called with {dict(zip(params, vals))} returns {pv}"
     return None
 
 
@@ -171,6 +173,15 @@ def gen_model(rng, wild: bool, exotic: bool = False) -> dict:
             e = gen_core_expr(rng, params, depth, fl)
         flags.update(fl)
         name = f"f{len(fns)}"
+        if k >= 1 and rng.random() < 0.3:
+            # the function's OWN parameter names are model names bound in another position (the same law reused with the
+            # species swapped / rotated, a chain f(a, b) bound to [b, c]) or one name is bound twice
+            bound = c08_gen.own_name_binding(rng, avail, k)
+            if bound is not None:
+                e = c08_gen.subst_names(e, dict(zip(params, bound[0])))
+                params, args = list(bound[0]), list(bound[1])
+                flags.add("ownnames")
+                flags.add("ownnames:" + bound[2])
         body = ([("doc",)] if rng.random() < 0.1 else []) + [("return", e)]
         fns.append((name, params, body))
         return name, args
@@ -285,40 +296,42 @@ def observe(m, state: dict[str, float] | None, strict: bool = True) -> dict | No
     return {"state": state, "args": args, "fluxes": flux, "rhs": rhs}
 
 
-def roundtrip_oracle(spec: dict, scratch: Path, tag: str, states: list[dict[str, float] | None]) -> tuple[str, str | None]:
-    """-> (outcome kind, description of the violation or None)"""
-    from mxlpy import sbml
+READ_TIMEOUT = [20.0]  # seconds per sbml.read; the quick tier uses 12 (a timeout is inconclusive, never an alarm)
 
-    try:
-        m = build_model(spec, scratch)
-    except Exception as e:  # noqa: BLE001
-        return "unbuildable", None if "mayrefuse" in spec["flags"] else f"harness could not build the model: {type(e).__name__}: {e}"
-    if observe(m, None) is None:
-        return "original-not-evaluable", None
-    f = scratch / f"c08_{common.os.getpid()}_{tag}.xml"
-    try:
-        guarded(sbml.write, m, f)
-    except _Timeout:
-        return "write-timeout", "sbml.write did not return within 20 s"
-    except Exception as e:  # noqa: BLE001
-        if "mayrefuse" in spec["flags"]:
-            return "refused", None
-        return "refused-representable", f"sbml.write refuses a model made of representable constructs {spec['flags']}: {type(e).__name__}: {str(e)[:150]}"
-    cache_py = Path.home() / ".cache" / "mxlpy" / f"mb_{f.stem}.py"
+
+def read_model(f: Path, forget: bool = True):
+    """sbml.read under the time limit -> (model, kind, bad).  forget=True removes what the import left behind in the session
+    (generated module file, sys.modules entry): single round trips are independent of each other; session sequences
+    (`session_oracle`) keep that state on purpose."""
     import warnings
 
+    from mxlpy import sbml
+    from mxlpy.sbml._import import valid_filename
+
+    mod_name = valid_filename(f.stem)
+    cache_py = Path.home() / ".cache" / "mxlpy" / f"{mod_name}.py"
     try:
         with warnings.catch_warnings():
             warnings.simplefilter("ignore")  # SymPy deprecation notices from pysbml
-            m2 = guarded(sbml.read, f)
+            return guarded(sbml.read, f, timeout=READ_TIMEOUT[0]), "ok", None
     except _Timeout:
         # pysbml/SymPy simplification of a deeply nested conditional can take minutes: inconclusive, counted, not judged
-        return "read-timeout", None
+        return None, "read-timeout", None
+    except RecursionError:
+        # SymPy's recursive simplification of a deeply nested conditional hits the interpreter's recursion limit, depending
+        # on how deep the caller's own stack is: a limit of the external importer, inconclusive like the timeout
+        return None, "read-recursion-limit", None
     except Exception as e:  # noqa: BLE001
-        return "unreadable", f"sbml.write wrote a file that sbml.read cannot import: {type(e).__name__}: {str(e)[:150]}"
+        return None, "unreadable", f"sbml.write wrote a file that sbml.read cannot import: {type(e).__name__}: {str(e)[:150]}"
     finally:
-        cache_py.unlink(missing_ok=True)
-        sys.modules.pop(f"mb_{f.stem}", None)
+        if forget:
+            cache_py.unlink(missing_ok=True)
+            sys.modules.pop(mod_name, None)
+
+
+def compare_models(m, m2, states: list[dict[str, float] | None]) -> tuple[str, str | None]:  # noqa: ANN001
+    """The property's comparison of an original model and what came back: every component under its name and kind, initial
+    values, and values / fluxes / derivatives at every state."""
     ids1, ids2 = dict(m.ids), dict(m2.ids)
     for nm, kind in ids1.items():
         if nm not in ids2:
@@ -348,6 +361,175 @@ def roundtrip_oracle(spec: dict, scratch: Path, tag: str, states: list[dict[str,
                     return what, f"{label} of {k} at state {st_used}: original {v}, after export+import {w}"
         n_cmp += 1
     return ("ok" if n_cmp else "no-comparable-state"), None
+
+
+def roundtrip_oracle(spec: dict, scratch: Path, tag: str, states: list[dict[str, float] | None], file: Path | None = None,
+                     forget: bool = True) -> tuple[str, str | None]:  # fmt: skip
+    """-> (outcome kind, description of the violation or None)"""
+    from mxlpy import sbml
+
+    try:
+        m = build_model(spec, scratch)
+    except Exception as e:  # noqa: BLE001
+        return "unbuildable", None if "mayrefuse" in spec["flags"] else f"harness could not build the model: {type(e).__name__}: {e}"
+    if observe(m, None) is None:
+        return "original-not-evaluable", None
+    f = file if file is not None else scratch / f"c08_{common.os.getpid()}_{tag}.xml"
+    try:
+        guarded(sbml.write, m, f)
+    except _Timeout:
+        return "write-timeout", "sbml.write did not return within 20 s"
+    except Exception as e:  # noqa: BLE001
+        if "mayrefuse" in spec["flags"]:
+            return "refused", None
+        return "refused-representable", f"sbml.write refuses a model made of representable constructs {spec['flags']}: {type(e).__name__}: {str(e)[:150]}"
+    m2, kind, bad = read_model(f, forget=forget)
+    if m2 is None:
+        return kind, bad
+    return compare_models(m, m2, states)
+
+
+# ---------------------------------------------------------------------------------------
+# sessions: several round trips in ONE interpreter session ("writing ANY model ... and reading the file back": every one)
+# ---------------------------------------------------------------------------------------
+
+
+def _edit_spec(rng, spec: dict) -> dict:  # noqa: ANN001
+    """The model after an edit: numeric parameter / initial values changed (same number of digits: the generated module
+    keeps its size), sometimes a reaction dropped or duplicated under a new name."""
+    import copy
+
+    out = copy.deepcopy(spec)
+    swap = {0: 4, 1: 3, 2: 1, 3: 2, 4: 0, 0.5: 2.5, 1.5: 0.5, 2.5: 1.5, 0.25: 0.75, 0.75: 0.25}
+    for group in ("parameters", "variables"):
+        for ent in out[group]:
+            if not isinstance(ent[1], dict) and rng.random() < 0.8:
+                ent[1] = swap.get(ent[1], 1.5)
+    r = rng.random()
+    if r < 0.3 and len(out["reactions"]) > 1:
+        out["reactions"].pop(rng.randrange(len(out["reactions"])))
+    elif r < 0.6:
+        src = out["reactions"][rng.randrange(len(out["reactions"]))]
+        if not any(isinstance(c, dict) for _v, c in src[3]):  # no second computed coefficient for a species (recorded finding)
+            out["reactions"].append([f"n{450 + len(out['reactions'])}", src[1], list(src[2]), [[v, (-c if rng.random() < 0.5 else c)] for v, c in src[3]]])
+    return out
+
+
+def gen_session(rng, k: int) -> list[dict]:  # noqa: ANN001
+    """Steps {"spec", "dir", "stem", "how"}: the first export, then edits exported over the SAME path, models exported
+    under the same file name in ANOTHER directory, and stems that differ only in case / separators."""
+
+    def fresh() -> dict:
+        while True:
+            sp = gen_model(rng, wild=False)
+            if "shared_ref" not in sp["flags"] and "boolnum" not in sp["flags"]:
+                return sp
+
+    stem = f"c08_{common.os.getpid()}_s{k}"
+    steps = [{"spec": fresh(), "dir": "a", "stem": stem, "how": "first export"}]
+    for _ in range(rng.randint(2, 3)):
+        prev = steps[-1]
+        r = rng.random()
+        if r < 0.45:
+            steps.append({"spec": _edit_spec(rng, prev["spec"]), "dir": prev["dir"], "stem": prev["stem"], "how": "edited model exported over the same file"})
+        elif r < 0.6:
+            steps.append({"spec": fresh(), "dir": prev["dir"], "stem": prev["stem"], "how": "another model exported over the same file"})
+        elif r < 0.85:
+            steps.append({"spec": fresh() if rng.random() < 0.5 else _edit_spec(rng, prev["spec"]), "dir": rng.choice([d for d in "abc" if d != prev["dir"]]),
+                          "stem": prev["stem"], "how": "same file name in another directory"})  # fmt: skip
+        else:
+            steps.append({"spec": fresh(), "dir": prev["dir"], "stem": rng.choice([stem.upper(), stem.replace("_", "-"), stem.replace("_", " ")]),
+                          "how": "file name that differs only in case / separators"})  # fmt: skip
+    return steps
+
+
+def _sess_model(kf: float, extra: bool = False, s0: float = 2.0) -> dict:
+    rx = [["n400", "f0", ["n100", "n200"], [["n100", -1], ["n101", 1]]]]
+    pars = [["n200", kf]]
+    if extra:
+        pars.append(["n201", 0.125])
+        rx.append(["n401", "f0", ["n101", "n201"], [["n101", -1], ["n100", 1]]])
+    return {"module": MODULE_HEADER + "def f0(p0, p1):\n    return p0 * p1\n", "parameters": pars, "variables": [["n100", s0], ["n101", 0.5]],
+            "derived": [], "reactions": rx, "flags": [], "fns": {}}  # fmt: skip
+
+
+def _sess(stem: str, *steps: tuple) -> list[dict]:
+    return [{"spec": sp, "dir": d, "stem": stem if st is None else st, "how": how} for sp, d, st, how in steps]
+
+
+def session_corpus() -> list[list[dict]]:
+    """Minimal sessions: a value edited in place (the generated module keeps its size and is rewritten within the same
+    second), a component added, another directory, a stem that maps to the same generated module name.  Stems carry the
+    process id: the importer writes its generated module to ~/.cache/mxlpy/mb_<stem>.py, shared by concurrent runs."""
+    pid = common.os.getpid()
+    same = "edited model exported over the same file"
+    return [
+        _sess(f"c08_{pid}_sess0", (_sess_model(0.5), "a", None, "first export"), (_sess_model(4.0), "a", None, same),
+              (_sess_model(0.5), "a", None, same), (_sess_model(2.5), "a", None, same), (_sess_model(1.5), "a", None, same)),
+        _sess(f"c08_{pid}_sess1", (_sess_model(0.5), "a", None, "first export"), (_sess_model(4.0, extra=True), "a", None, same),
+              (_sess_model(0.25, s0=7.0), "b", None, "same file name in another directory"),
+              (_sess_model(3.0, extra=True), "b", f"C08-{pid}-Sess1", "file name that differs only in case / separators")),
+    ]  # fmt: skip
+
+
+STALE_FINDING = "stale-bytecode-on-reimport"
+KNOWN_SEEN: list[tuple[str, str]] = []
+
+
+def run_default_settings(sessions: list[list[dict]], scratch: Path, timeout: float = 240.0, traces: list | None = None, want_traces: bool = False):  # noqa: ANN201
+    """harness/c08_session.py in a subprocess -> [[kind, bad, at, ...], ...] (one entry per session) [, traces]."""
+    import json
+    import subprocess
+
+    inp = scratch / f"c08_sessions_{common.os.getpid()}.json"
+    inp.write_text(json.dumps({"sessions": sessions, "traces": traces or []}))
+    sub = scratch / f"default_{common.os.getpid()}"
+    env = {k: v for k, v in common.os.environ.items() if k not in ("PYTHONDONTWRITEBYTECODE", "PYTHONPYCACHEPREFIX")}
+    env["PYTHONDONTWRITEBYTECODE"] = "1"  # while the libraries are imported; the driver switches it off afterwards
+    try:
+        p = subprocess.run([sys.executable, "-m", "harness.c08_session", str(inp), str(sub)], cwd=str(common.VERIF), env=env,
+                           capture_output=True, text=True, timeout=timeout, check=False)  # fmt: skip
+        for line in p.stdout.splitlines():
+            if line.startswith("C08SESSION "):
+                res = json.loads(line[len("C08SESSION "):])
+                return (res["results"], res.get("traces", [])) if want_traces else res["results"]
+        err = [["driver-error", None, -1, (p.stderr or p.stdout)[-300:]]]
+        return (err, []) if want_traces else err
+    except subprocess.TimeoutExpired:
+        err = [["driver-error", None, -1, "timeout"]]
+        return (err, []) if want_traces else err
+    finally:
+        shutil.rmtree(sub, ignore_errors=True)
+        inp.unlink(missing_ok=True)
+
+
+def session_oracle(steps: list[dict], scratch: Path, tag: str) -> tuple[str, str | None, int]:
+    """Runs the steps in THIS interpreter session without forgetting anything between them; every read must return the model
+    that is in the file it was given.  -> (kind, violation or None, index of the failing step)"""
+    from mxlpy.sbml._import import valid_filename
+
+    root = scratch / f"sess_{common.os.getpid()}_{tag}"
+    left: set[str] = set()
+    try:
+        for i, st in enumerate(steps):
+            d = root / st["dir"]
+            d.mkdir(parents=True, exist_ok=True)
+            f = d / f"{st['stem']}.xml"
+            left.add(valid_filename(f.stem))
+            states: list[dict[str, float] | None] = [None, {v[0]: float(1 + (j + i) % 4) for j, v in enumerate(st["spec"]["variables"])}]
+            kind, bad = roundtrip_oracle(st["spec"], scratch, f"{tag}_{i}", states, file=f, forget=False)
+            if kind in ("read-timeout", "read-recursion-limit", "write-timeout", "original-not-evaluable", "unbuildable", "refused"):
+                return "inconclusive-" + kind, None, i
+            if bad:
+                if i == 0:
+                    return kind, bad, 0  # an ordinary single round trip failing: not a matter of the session
+                return "session-" + kind, f"round trip #{i + 1} of one session ({st['how']}: {st['dir']}/{st['stem']}.xml): {bad}", i
+        return "ok", None, -1
+    finally:
+        shutil.rmtree(root, ignore_errors=True)
+        for mod_name in left:
+            (Path.home() / ".cache" / "mxlpy" / f"{mod_name}.py").unlink(missing_ok=True)
+            sys.modules.pop(mod_name, None)
 
 
 # ---------------------------------------------------------------------------------------
@@ -419,6 +601,284 @@ def coq_sref(role: str, ref: tuple) -> str:
     return f"(mkSref {role} {cn(int(sp[1:]))} {s} {r})"
 
 
+UNSAFE_NAMES = ["1k", "x-1", "d.1", "v 1", "9y", "a+b", "k[c]", "_z", "x__45__y", "2*k", "ATP[c]", "x:y"]
+SAFE_NAMES = ["kcat", "X1", "y_2", "Vmax", "s", "glc_ext"]
+NAME_MODULE = MODULE_HEADER + "def f0(p0, p1):\n    return p0 * p1\n\ndef d0(p0):\n    return p0 + 1\n\ndef i0(p0):\n    return p0 * 3\n\ndef c0(p0):\n    return -p0\n"
+
+
+def expected_math_names() -> str:
+    """The value coq/sbmlexp/ExpectedFacts.v expects for the fact math_names (tools/c08_switch.py flips it together with
+    the `fix:` commit): decides whether dangling identifiers of names that need escaping are the recorded finding."""
+    import re
+
+    m = re.search(r"Definition C08_expected_math_names : math_names := (\w+)\.", (common.area_dir(AREA) / "ExpectedFacts.v").read_text())
+    return m.group(1) if m else "MathNamesUnknown"
+
+
+def gen_name_doc(rng) -> dict:  # noqa: ANN001
+    """parameter P, variables V and W, derived D(V), reaction R = f0(D, P) with V: -1 and (sometimes) a computed coefficient
+    c0(P) for W; W sometimes starts from an initial assignment i0(P); names mostly need escaping."""
+    unsafe = rng.random() < 0.8
+    pool = list(UNSAFE_NAMES if unsafe else SAFE_NAMES)
+    extra = list(SAFE_NAMES)
+    rng.shuffle(pool)
+    rng.shuffle(extra)
+    names = [(pool.pop() if (unsafe and rng.random() < 0.7) or not unsafe else extra.pop()) for _ in range(5)]
+    return {"P": names[0], "V": names[1], "W": names[2], "D": names[3], "R": names[4], "ia": rng.random() < 0.5, "computed": rng.random() < 0.6}
+
+
+def build_name_doc(nd: dict, scratch: Path):  # noqa: ANN201
+    from mxlpy import Derived, InitialAssignment, Model
+
+    mod = load_module(scratch, NAME_MODULE)
+    m = Model().add_parameter(nd["P"], 2.0).add_variable(nd["V"], 1.5)
+    m.add_variable(nd["W"], InitialAssignment(fn=mod.i0, args=[nd["P"]]) if nd["ia"] else 0.5)
+    m.add_derived(nd["D"], fn=mod.d0, args=[nd["V"]])
+    sto = {nd["V"]: -1, nd["W"]: Derived(fn=mod.c0, args=[nd["P"]]) if nd["computed"] else 2}
+    m.add_reaction(nd["R"], fn=mod.f0, args=[nd["D"], nd["P"]], stoichiometry=sto)
+    return m
+
+
+def _ci(node) -> list[str]:  # noqa: ANN001
+    t = ast_to_tree(node)
+    out: list[str] = []
+
+    def walk(x: tuple) -> None:
+        if x[0] == "name":
+            out.append(x[1])
+        elif x[0] == "app":
+            for c in x[2]:
+                walk(c)
+
+    walk(t)
+    return out
+
+
+def name_doc_observed(nd: dict, scratch: Path, tag: str) -> tuple:
+    """-> ("ok", [(refkind, prefix, name, what the document contains)], dangling) from the document sbml.write builds.
+    dangling (independent of the Coq model): identifiers used somewhere in the document that nothing declares."""
+    import libsbml
+    from mxlpy import sbml
+
+    m = build_name_doc(nd, scratch)
+    f = scratch / f"c08n_{common.os.getpid()}_{tag}.xml"
+    captured: list = []
+    orig = libsbml.writeSBMLToFile
+
+    def capture(doc, path):  # noqa: ANN001
+        captured.append(doc)
+        return orig(doc, path)
+
+    libsbml.writeSBMLToFile = capture
+    try:
+        guarded(sbml.write, m, f)
+    except Exception as e:  # noqa: BLE001
+        return ("err", common.classify_exception(e), str(e)[:100])
+    finally:
+        libsbml.writeSBMLToFile = orig
+    if len(captured) != 1:
+        return ("err", "ErrOther:NoDocument", "")
+    sm = captured[0].getModel()
+    species = [sm.getSpecies(i).getId() for i in range(sm.getNumSpecies())]
+    params = [sm.getParameter(i).getId() for i in range(sm.getNumParameters())]
+    rules = {sm.getRule(i).getVariable(): sm.getRule(i) for i in range(sm.getNumRules())}
+    rxn = sm.getReaction(0)
+    obs: list[tuple] = [
+        ("RDeclared", "PAR", nd["P"], params[0]), ("RDeclared", "CPD", nd["V"], species[0]), ("RDeclared", "CPD", nd["W"], species[1]),
+        ("RDeclared", "RXN", nd["R"], rxn.getId()),
+    ]  # fmt: skip
+    law = _ci(rxn.getKineticLaw().getMath()) if rxn.getKineticLaw().isSetMath() else []
+    if len(law) == 2:
+        obs += [("RMath", "AR", nd["D"], law[0]), ("RMath", "PAR", nd["P"], law[1])]
+    used = set(law)
+    rule_vars = list(rules)
+    # the derived quantity: rule variable and its math
+    d_rule = [v for v in rule_vars if "ref" not in v or nd["D"].endswith("ref")]
+    if d_rule:
+        obs.append(("RRuleVariable", "AR", nd["D"], d_rule[0]))
+        ci = _ci(rules[d_rule[0]].getMath()) if rules[d_rule[0]].isSetMath() else []
+        used |= set(ci)
+        if len(ci) == 1:
+            obs.append(("RMath", "CPD", nd["V"], ci[0]))
+    symbols = []
+    for i in range(sm.getNumInitialAssignments()):
+        ia = sm.getInitialAssignment(i)
+        symbols.append(ia.getSymbol())
+        obs.append(("RIaSymbol", "CPD", nd["W"], ia.getSymbol()))
+        ci = _ci(ia.getMath()) if ia.isSetMath() else []
+        used |= set(ci)
+        if len(ci) == 1:
+            obs.append(("RMath", "PAR", nd["P"], ci[0]))
+    sref_ids = []
+    for getn, get in ((rxn.getNumReactants, rxn.getReactant), (rxn.getNumProducts, rxn.getProduct)):
+        for i in range(getn()):
+            if get(i).isSetId():
+                sref_ids.append(get(i).getId())
+    if nd["computed"]:
+        ref = nd["W"] + "ref"
+        if len(sref_ids) == 1:
+            obs.append(("RSrefId", "AR", ref, sref_ids[0]))
+        c_rule = [v for v in rule_vars if v not in d_rule[:1]]
+        if len(c_rule) == 1:
+            obs.append(("RRuleVariable", "AR", ref, c_rule[0]))
+            ci = _ci(rules[c_rule[0]].getMath()) if rules[c_rule[0]].isSetMath() else []
+            used |= set(ci)
+            if len(ci) == 1:
+                obs.append(("RMath", "PAR", nd["P"], ci[0]))
+    declared = set(species) | set(params) | set(rule_vars) | {rxn.getId(), "time", "compartment"}
+    dangling = sorted(used - declared) + sorted(f"initial assignment of {x}" for x in symbols if x not in set(species) | set(params))
+    dangling += sorted(f"species reference {x} has no rule" for x in sref_ids if x not in rules)
+    return ("ok", obs, dangling, f)
+
+
+def positional_roundtrip(nd: dict, scratch: Path, f: Path) -> str | None:
+    """Names that need escaping come back under another name (recorded finding): compare BY POSITION -- k-th variable with
+    k-th variable, the reaction's flux, initial values -- at the initial state and one more."""
+    m = build_name_doc(nd, scratch)
+    m2, kind, bad = read_model(f)
+    if m2 is None:
+        return bad if kind != "read-timeout" else None
+    v1, v2 = list(m.get_variable_names()), list(m2.get_variable_names())
+    if len(v1) != len(v2):
+        return f"variables {v1} come back as {v2}"
+    for state in (None, {v1[0]: 3.0, v1[1]: 0.25}):
+        try:
+            s1 = dict(m.get_initial_conditions()) if state is None else state
+            s2 = dict(m2.get_initial_conditions()) if state is None else {b: state[a] for a, b in zip(v1, v2)}
+            if state is None and not all(close(float(s1[a]), float(s2[b])) for a, b in zip(v1, v2)):
+                return f"initial values {s1} come back as {s2}"
+            r1, r2 = m.get_right_hand_side(s1, time=0.0), m2.get_right_hand_side(s2, time=0.0)
+            fl1, fl2 = list(m.get_fluxes(s1, time=0.0)), list(m2.get_fluxes(s2, time=0.0))
+        except Exception as e:  # noqa: BLE001
+            return f"the re-imported model cannot be evaluated: {type(e).__name__}: {str(e)[:150]}"
+        if not all(close(float(r1[a]), float(r2[b])) for a, b in zip(v1, v2)):
+            return f"derivatives {dict(r1)} come back as {dict(r2)} (state {s1})"
+        if len(fl1) != len(fl2) or not all(close(float(a), float(b)) for a, b in zip(fl1, fl2)):
+            return f"fluxes {fl1} come back as {fl2} (state {s1})"
+    return None
+
+
+def gen_ref_doc(rng) -> dict:  # noqa: ANN001
+    """A document with several computed coefficients, often for ONE species in several reactions (and twice in one)."""
+    fns: list[tuple[str, list[str], list[tuple]]] = [("f0", ["p0"], [("return", ("name", "p0"))])]
+    n_var = rng.randint(1, 3)
+    vars_ = [[f"n{100 + i}", float(rng.randint(1, 3))] for i in range(n_var)]
+    rxns = []
+    for i in range(rng.randint(1, 4)):
+        st = []
+        for v in rng.sample([v[0] for v in vars_], rng.randint(1, n_var)):
+            if rng.random() < 0.7:
+                k = rng.randint(0, 1)
+                base: tuple = ("real", Fraction(rng.choice([1, 3, 5]), 2)) if k == 0 else ("bin", "Mult", ("name", "p0"), ("real", Fraction(rng.choice([1, 3]), 2)))
+                e = base if rng.random() < 0.5 else ("un", "USub", base)
+                fname = f"f{len(fns)}"
+                fns.append((fname, [f"p{j}" for j in range(k)], [("return", e)]))
+                st.append([v, {"derived": [fname, ["n200"][:k]]}])
+            else:
+                st.append([v, rng.choice([-2, -1, 1, 0.5, -1.5])])
+        rxns.append([f"n{400 + i}", "f0", [rng.choice(vars_)[0]], st])
+    return {"module": MODULE_HEADER + "\n\n".join(fn_src(n, p, b) for n, p, b in fns), "parameters": [["n200", 2.0]], "variables": vars_,
+            "derived": [], "reactions": rxns, "flags": ["computed_stoichiometry"], "fns": {n: [p, b] for n, p, b in fns}}  # fmt: skip
+
+
+def doc_reference_ids(spec: dict, scratch: Path, tag: str) -> tuple:
+    """("ok", [(species, index)] of the species references with an id, in document order, [(species, index)] of the
+    assignment rules written for them) from the libSBML document sbml.write builds; ids are "<species>ref[<n>]"."""
+    import re
+
+    import libsbml
+    from mxlpy import sbml
+
+    m = build_model(spec, scratch)
+    if observe(m, None) is None:
+        return ("skip", "not evaluable at the initial state")
+    f = scratch / f"c08f_{common.os.getpid()}_{tag}.xml"
+    captured: list = []
+    orig = libsbml.writeSBMLToFile
+
+    def capture(doc, path):  # noqa: ANN001
+        captured.append(doc)
+        return orig(doc, path)
+
+    libsbml.writeSBMLToFile = capture
+    try:
+        guarded(sbml.write, m, f)
+    except Exception as e:  # noqa: BLE001
+        return ("err", common.classify_exception(e), str(e)[:100])
+    finally:
+        libsbml.writeSBMLToFile = orig
+        f.unlink(missing_ok=True)
+    if len(captured) != 1:
+        return ("err", "ErrOther:NoDocument", "")
+    sm = captured[0].getModel()
+
+    def parse(s: str) -> tuple[int, int]:
+        mt = re.fullmatch(r"n(\d+)ref(\d*)", s)
+        return (int(mt.group(1)), int(mt.group(2) or 1)) if mt and mt.group(2) != "1" else (0, 0)
+
+    refs = []
+    for nm, _f, _a, _st in spec["reactions"]:
+        rx = sm.getReaction(nm)
+        for getn, get in ((rx.getNumReactants, rx.getReactant), (rx.getNumProducts, rx.getProduct)):
+            for i in range(getn()):
+                sr = get(i)
+                if sr.isSetId():
+                    key = parse(sr.getId())
+                    refs.append(key if f"n{key[0]}" == sr.getSpecies() else (0, 0))
+    rules = [parse(sm.getRule(i).getVariable()) for i in range(sm.getNumRules()) if "ref" in sm.getRule(i).getVariable()]
+    return ("ok", refs, rules)
+
+
+def gen_trace(rng, k: int) -> list[list]:  # noqa: ANN001
+    """A history of writes and reads over two directories and stems that valid_filename maps to one or two module names;
+    documents are numbered (parameter n200 = number / 2; most numbers print with the same width)."""
+    pid = common.os.getpid()
+    stems = [f"c08_{pid}_t{k}", f"C08-{pid}-T{k}", f"c08_{pid}_t{k}b"]
+    ops: list[list] = []
+    written: list[tuple[str, str]] = []
+    for _ in range(rng.randint(6, 12)):
+        if not written or rng.random() < 0.45:
+            d, st = rng.choice("ab"), rng.choice(stems[:2] if rng.random() < 0.8 else stems)
+            ops.append(["w", d, st, rng.choice([1, 2, 3, 5, 7, 9, 11, 13, 20, 24])])
+            if (d, st) not in written:
+                written.append((d, st))
+        else:
+            d, st = rng.choice(written)
+            ops.append(["r", d, st])
+    if not any(o[0] == "r" for o in ops):
+        ops.append(["r", *written[0]])
+    return ops
+
+
+def trace_to_coq(ops: list[list], trace: list[dict], bytecode: bool) -> tuple[str, int, str] | None:
+    """-> (Gallina sess_case, description, number of reads that returned another document than the one in the file) or
+    None when the trace cannot be used (a read failed)."""
+    if len(trace) != len(ops) or any("error" in t for t in trace):
+        return None
+    stem_no: dict[str, int] = {}
+    mod_no: dict[str, int] = {}
+    mods, sizes, cops, exp = {}, {}, [], []
+    n_stale = 0
+    t0 = min([t["t"] for t in trace if t["op"] == "r"], default=0)
+    last: dict[tuple, int] = {}
+    for op, t in zip(ops, trace):
+        sn = stem_no.setdefault(op[2], len(stem_no))
+        mods[sn] = 1000 + mod_no.setdefault(t["modname"], len(mod_no))
+        p = f"({cn({'a': 0, 'b': 1}[op[1]])}, {cn(sn)})"
+        if op[0] == "w":
+            cops.append(f"OWrite {p} {cn(op[3])}")
+            last[(op[1], op[2])] = op[3]
+        else:
+            cops.append(f"ORead {p} {cn(t['t'] - t0)}")
+            sizes[last[(op[1], op[2])]] = t["size"]  # the generated file is rewritten by every read: size of the CURRENT document's module
+            mk = t["marker"]
+            n_stale += mk != last[(op[1], op[2])]
+            exp.append(f"(Some {cn(int(mk))})" if float(mk).is_integer() else "None")
+    pairs = lambda d: clist(f"({cn(a)}, {cn(b)})" for a, b in sorted(d.items()))  # noqa: E731
+    case = f"({'true' if bytecode else 'false'}, {pairs(mods)}, {pairs(sizes)}, {clist(cops)}, {clist(exp)})"
+    return case, n_stale, f"bytecode={bytecode} ops={ops} observed={[(t.get('marker'), t.get('t', 0) - t0, t.get('size')) for t in trace if t['op'] == 'r']}"
+
+
 # ---------------------------------------------------------------------------------------
 # the check
 # ---------------------------------------------------------------------------------------
@@ -475,6 +935,13 @@ MATH_CORPUS: list[tuple[list[str], tuple, list[str]]] = [
     (["p0", "p1"], ("callattr", "np", "sqrt", [_n("p0"), _n("p1")], False), ["mayrefuse"]),
     (["p0"], ("callattr", "np", "sqrt", [_n("p0")], True), ["mayrefuse"]),
     (["p0"], ("bin", "Mod", _n("p0"), ("int", 2)), ["mayrefuse"]),
+    # functions whose OWN parameter names are model names bound in another position (renaming must be simultaneous)
+    (["n100", "n101", "n200"], ("bin", "Div", ("bin", "Mult", _n("n200"), _n("n100")), _n("n101")), ["ownnames:swap"], ["n101", "n100", "n200"]),
+    (["n101", "n200", "n100"], ("bin", "Sub", ("bin", "Add", _n("n101"), ("bin", "Mult", ("int", 2), _n("n200"))), ("bin", "Div", _n("n100"), ("int", 4))),
+     ["ownnames:rotation"], ["n200", "n100", "n101"]),
+    (["n100", "n101"], ("bin", "Sub", _n("n100"), ("bin", "Mult", ("int", 2), _n("n101"))), ["ownnames:chain"], ["n101", "n102"]),
+    (["n100", "n101"], ("if", ("cmp", _n("n100"), [("Lt", _n("n101"))]), _n("n100"), ("un", "USub", _n("n101"))), ["ownnames:chain", "conditional"], ["n101", "n102"]),
+    (["p0", "p1"], ("bin", "Add", ("bin", "Mult", _n("p0"), _n("p1")), _n("p0")), ["ownnames:repeat"], ["n100", "n100"]),
 ]
 
 
@@ -498,11 +965,24 @@ MODEL_CORPUS: list[dict] = [
            reactions=[["n400", "f0", ["n100", "n200"], [["n100", -1]]]], flags=["chained", "conditional"]),
     _model("def f0(p0):\n    return np.log10(p0 + 1) + math.sqrt(p0)\n\ndef f1(p0, p1):\n    return p0 * p1\n",
            derived=[["n300", "f0", ["n100"]]], reactions=[["n400", "f1", ["n300", "n200"], [["n101", -2]]]], flags=["function"]),
+    # one law used for both directions with the species swapped; a rotated and a chained binding of a function's own names
+    _model("def f0(n100, n101, n200):\n    return n200 * n100 / n101\n\ndef f1(n101, n200, n100):\n    return n101 + 2 * n200 - n100 / 4\n\n"
+           "def f2(n100, n101):\n    return n100 - 2 * n101\n",
+           derived=[["n300", "f1", ["n200", "n100", "n101"]], ["n301", "f2", ["n101", "n200"]]],
+           reactions=[["n400", "f0", ["n100", "n101", "n200"], [["n100", -1], ["n101", 1]]], ["n401", "f0", ["n101", "n100", "n200"], [["n101", -1], ["n100", 1]]]],
+           flags=["ownnames"]),
+    # two computed coefficients of one species (recorded finding shared-stoichiometry-reference until its repair is applied)
+    _model("def f0(p0):\n    return p0\n\ndef f1():\n    return 0.5\n\ndef f2():\n    return -1.5\n\ndef f3(p0):\n    return p0 * 2\n",
+           reactions=[["n400", "f0", ["n100"], [["n101", {"derived": ["f1", []]}]]],
+                      ["n401", "f0", ["n100"], [["n101", {"derived": ["f2", []]}], ["n100", {"derived": ["f3", ["n200"]]}]]],
+                      ["n402", "f0", ["n101"], [["n101", {"derived": ["f3", ["n200"]]}]]]],
+           flags=["computed_stoichiometry", "shared_ref"]),
 ]
 
 
 def check(run: Run) -> None:
     thorough = run.tier == "thorough"
+    READ_TIMEOUT[0] = 20.0 if thorough else 12.0
     facts = gen()
     run.coverage["gen_facts"] = facts
     run.rule = (
@@ -513,7 +993,14 @@ def check(run: Run) -> None:
         "statements); models: a corpus of 5, then 1-3 parameters/variables (numeric or initial assignment), 0-2 derived, 1-3 "
         "reactions with integer, fractional and computed coefficients of either sign, rate laws from the grammar of the "
         "constructs the property names (18% from the full grammar, 12% wild); a case is non-trivial if the function has an "
-        "operator/call (math level) or the model round-trips / differs at a compared state; distinct by content"
+        "operator/call (math level) or the model round-trips / differs at a compared state; distinct by content. "
+        "Deepening: 15% of the functions and 30% of the models' functions have their OWN parameter names bound as model names in "
+        "another position (swap, rotation, permutation, chain f(a,b)->[b,c], overlap, one name bound twice; 5 corpus functions, 1 corpus "
+        "model); 40/150 documents with several computed coefficients per species (reference ids); 30/120 documents whose names mostly "
+        "need escaping (every identifier occurrence; dangling identifiers); sessions: 2 corpus + 8/40 generated sequences of 3-4 round "
+        "trips in one interpreter (edited model over the same path, another model over the same path, same file name in another "
+        "directory, stems differing in case/separators), the first 4/6 again under default interpreter settings (byte-code caching on, "
+        "subprocess), and 4/12 write/read histories for the Coq session model (in-process + subprocess with observed mtime/size)"
     )
     proofs_ok = run.check_proofs(AREA, PROPS)
     run.assumptions += [
@@ -530,9 +1017,17 @@ def check(run: Run) -> None:
         "parameters have no value); IdentifierReplacer renaming callee names, nested attributes, non-ASCII names are outside the model",
         "correspondence harness: generators, Gallina printers, libSBML tree walker, coqc output parser; the document-level "
         "correspondence reads the libSBML document sbml.write hands to libsbml.writeSBMLToFile",
+        "sessions: src/mxlpy/sbml/_import.py::read and import_from_path are modelled (coq/sbmlexp/SbmlSession.v); pysbml's parser + "
+        "transformation, _codegen, module execution, valid_filename and the clock are Section variables; the source loader's byte-code "
+        "rule (trusted when mtime in whole seconds and size are unchanged) is modelled from importlib's documented behaviour and "
+        "validated on observed histories; ./check runs with PYTHONDONTWRITEBYTECODE=1, the default-settings sessions run in a "
+        "subprocess (harness/c08_session.py) whose byte-code cache is redirected into the scratch directory",
+        "coq/sbmlexp/ExpectedFacts.v (hand-edited through tools/c08_switch.py together with a fix commit) says which of the two "
+        "modelled values of f_ref_id / f_math_names / i_loader the tree is expected to have; until a proposed repair is applied the "
+        "defect it repairs is a recorded finding replayed every run",
         "oracle limits: points where a NumPy function leaves its domain (NaN) have no value and are skipped; models that cannot "
         "be evaluated at their initial state cannot be exported (Model._create_cache raises inside write) and are skipped; an "
-        "import that takes more than 20 s is inconclusive (counted as read-timeout); import-side differences of models inside "
+        "import that takes more than 12 s (quick) / 20 s (thorough) or hits SymPy's recursion limit is inconclusive (counted as read-timeout / read-recursion-limit); import-side differences of models inside "
         "the guard of a recorded finding (truth values as numbers; one species with computed coefficients in two reactions) are "
         "attributed to that finding, whose witness is replayed every run",
     ]
@@ -551,9 +1046,25 @@ def check(run: Run) -> None:
 
 
 def _run(run: Run, rng, scratch: Path, thorough: bool) -> None:  # noqa: ANN001
-    n_viol = 0
+    import time
+
+    reported: dict[str, int] = {}
+
+    def may_report(kind: str, cap: int = 3) -> bool:
+        """at most `cap` violations per kind of case, so that one defect cannot crowd out the witness of another"""
+        reported[kind] = reported.get(kind, 0) + 1
+        return reported[kind] <= cap
+
     known_ids = {kf.get("id") for kf in common.load_known_findings("C08")}
     dist: dict[str, int] = {}
+    t_last = [time.time()]
+    secs: dict[str, float] = {}
+
+    def lap(name: str) -> None:
+        now = time.time()
+        secs[name] = round(secs.get(name, 0.0) + now - t_last[0], 1)
+        t_last[0] = now
+        run.coverage["section_seconds"] = secs
 
     def bump(k: str) -> None:
         dist[k] = dist.get(k, 0) + 1
@@ -561,8 +1072,10 @@ def _run(run: Run, rng, scratch: Path, thorough: bool) -> None:  # noqa: ANN001
     # ---- (A) function level -----------------------------------------------------------
     n_fn = 4000 if thorough else 700
     fdefs = []
-    for params, e, fl in MATH_CORPUS:
-        fdefs.append({"params": params, "body": [("return", e)], "flags": fl, "name": f"f{len(fdefs)}", "args": [f"n{100 + j}" for j in range(len(params))]})
+    for entry in MATH_CORPUS:
+        params, e, fl = entry[:3]
+        fdefs.append({"params": params, "body": [("return", e)], "flags": fl, "name": f"f{len(fdefs)}",
+                      "args": list(entry[3]) if len(entry) > 3 else [f"n{100 + j}" for j in range(len(params))]})  # fmt: skip
     for i in range(len(fdefs), n_fn):
         wild = rng.random() < 0.35
         fd = gen_function(rng, rng.randint(0, 3) if rng.random() < 0.9 else 4, rng.randint(1, 4), wild)
@@ -571,6 +1084,15 @@ def _run(run: Run, rng, scratch: Path, thorough: bool) -> None:  # noqa: ANN001
         if wild and rng.random() < 0.03:
             nargs = max(0, nargs + rng.choice([-1, 1]))
         fd["args"] = [f"n{100 + j}" for j in range(nargs)]
+        if nargs == len(fd["params"]) and nargs >= 1 and "global" not in fd["flags"] and rng.random() < 0.15:
+            # the function's own parameter names are model names bound in another position (swap, rotation, chain, overlap)
+            # or one model name is bound twice: IdentifierReplacer must rename all parameters simultaneously
+            bound = c08_gen.own_name_binding(rng, [f"n{100 + j}" for j in range(nargs + 1)], nargs)
+            if bound is not None:
+                mp = dict(zip(fd["params"], bound[0]))
+                fd["body"] = [tuple(c08_gen.subst_names(x, mp) for x in st) for st in fd["body"]]
+                fd["params"], fd["args"] = list(bound[0]), list(bound[1])
+                fd["flags"] = sorted({*fd["flags"], "ownnames:" + bound[2]})
         fdefs.append(fd)
     math_cases, math_meta = [], []
     for chunk_i, chunk in enumerate(common.chunks(fdefs, 200)):
@@ -586,8 +1108,7 @@ def _run(run: Run, rng, scratch: Path, thorough: bool) -> None:  # noqa: ANN001
             for fl in fd["flags"]:
                 bump("fnflag:" + fl)
             bad = math_oracle(fn, fd["params"], fd["args"], out, fd["flags"]) if "global" not in fd["flags"] and "deadcode" not in fd["flags"] else None
-            if bad and n_viol < 6:
-                n_viol += 1
+            if bad and may_report("math", 4):
                 run.violation(f"_sbmlify_fn: {bad} -- {src.strip().splitlines()[-1].strip()}",
                               {"kind": "math", "source": src, "fname": fd["name"], "params": fd["params"], "args": fd["args"], "flags": fd["flags"]})  # fmt: skip
             elif bad:
@@ -597,6 +1118,7 @@ def _run(run: Run, rng, scratch: Path, thorough: bool) -> None:  # noqa: ANN001
             if chunk_i == 0:
                 run.sample({"function": src, "args": fd["args"], "outcome": out if out[0] == "err" else "exported"}, cap=3)
 
+    lap("A functions")
     # ---- (B) ids ----------------------------------------------------------------------
     from mxlpy.sbml._export import _convert_id_to_sbml
 
@@ -613,13 +1135,54 @@ def _run(run: Run, rng, scratch: Path, thorough: bool) -> None:  # noqa: ANN001
             exp = ("err", common.classify_exception(e))
         run.count_case(("id", nm, prefix), nontrivial=not nm.isalnum())
         safe = bool(nm) and nm[0].isalpha() and all(c.isalnum() or c == "_" for c in nm) and nm.isascii()
-        if safe and exp != ("ok", nm) and n_viol < 8:
-            n_viol += 1
+        if safe and exp != ("ok", nm) and may_report("id", 2):
             run.violation(f"_convert_id_to_sbml changes a name that needs no escaping: {nm!r} -> {exp}", {"kind": "id", "name": nm, "prefix": prefix})
         e = f"(Ok {cstr(exp[1])})" if exp[0] == "ok" else f"(Err {c08_gen.ERR_COQ.get(exp[1], 'ErrOther')})"
         id_cases.append(f"({cstr(prefix)}, {cstr(nm)}, {e})")
         id_meta.append((nm, prefix, exp))
 
+    lap("B ids")
+    # ---- (B2) identifiers inside whole documents (names that need escaping) --------------------
+    import re
+
+    name_cases, name_meta = [], []
+    math_mode = expected_math_names()
+    for i in range(120 if thorough else 30):
+        nd = gen_name_doc(rng)
+        try:
+            out = name_doc_observed(nd, scratch, f"n{i}")
+        except Exception as e:  # noqa: BLE001
+            run.note(f"name document {i} could not be produced: {type(e).__name__}: {e}")
+            continue
+        all_safe = all(x in SAFE_NAMES for x in (nd["P"], nd["V"], nd["W"], nd["D"], nd["R"]))
+        run.count_case(("names", tuple(sorted(nd.items()))), nontrivial=not all_safe)
+        if out[0] != "ok":
+            bump("name-doc:" + out[1])
+            if may_report("names-refused", 2):
+                run.violation(f"sbml.write refuses a model whose names need escaping: {out[1]} {out[2]}", {"kind": "names", "doc": nd})
+            continue
+        bump("name-doc:" + ("safe-names" if all_safe else "names-needing-escaping"))
+        for kind_, prefix, nm, got in out[1]:
+            name_cases.append(f"({kind_}, {cstr(prefix)}, {cstr(nm)}, (Ok {cstr(got)}))")
+            name_meta.append((kind_, prefix, nm, got))
+        bad = None
+        if out[2]:
+            bad = f"the written document uses identifiers that nothing declares: {out[2]} (names {nd})"
+        elif nd["computed"] and (re.search(r"[^0-9a-zA-Z_]", nd["W"]) or re.search(r"__\d+__", nd["W"])):
+            # external importer: pysbml un-escapes `__<ord>__` in the VARIABLE of the assignment rule (x__58__yref -> xyref) but
+            # not in the species-reference id the stoichiometry refers to, which then comes back as an extra variable --
+            # import side of the recorded finding names-needing-escaping; the exporter's document is consistent (checked above)
+            bump("name-doc:known-finding-names-needing-escaping(importer unescapes the rule of a computed reference)")
+        elif all_safe or math_mode == "MathIds":
+            bad = positional_roundtrip(nd, scratch, out[3])
+            bad = bad and f"export+import of a model with the names {nd}: {bad}"
+        out[3].unlink(missing_ok=True)
+        if bad and not all_safe and math_mode != "MathIds" and "names-needing-escaping" in known_ids:
+            bump("name-doc:known-finding-names-needing-escaping")  # the math refers to the unescaped name (replayed below)
+        elif bad and may_report("names", 2):
+            run.violation(bad, {"kind": "names", "doc": nd})
+
+    lap("B2 identifiers")
     # ---- (C) one-reaction / one-assignment documents ---------------------------------------
     rxn_cases, rxn_meta, ia_cases, ia_meta = [], [], [], []
     for i in range(400 if thorough else 80):
@@ -678,6 +1241,30 @@ def _run(run: Run, rng, scratch: Path, thorough: bool) -> None:  # noqa: ANN001
             ia_cases.append(f"({coq_fundef(fns[f][0], fns[f][1])}, {clist(cn(int(x[1:])) for x in a)}, {exp2})")
             ia_meta.append((nm, f, a, o2[0] if o2[0] == "ok" else o2[:2]))
 
+    lap("C documents")
+    # ---- (C2) reference ids of the computed coefficients of whole documents -------------------
+    ref_cases, ref_meta = [], []
+    for i in range(150 if thorough else 40):
+        spec = gen_ref_doc(rng)
+        try:
+            out = doc_reference_ids(spec, scratch, f"f{i}")
+        except Exception as e:  # noqa: BLE001
+            run.note(f"reference-id document {i} could not be produced: {type(e).__name__}: {e}")
+            continue
+        if out[0] != "ok":
+            bump("ref-doc:" + out[0])
+            continue
+        fns = spec["fns"]
+        rs = clist(f"(mkRxn {coq_fundef(fns[rx[1]][0], fns[rx[1]][1])} {clist(cn(int(a[1:])) for a in rx[2])} {clist('(' + cn(int(v[1:])) + ', ' + coq_coef(c, fns) + ')' for v, c in rx[3])})" for rx in spec["reactions"])
+        shared = len({k[0] for k in out[1]}) < len(out[1])
+        bump("ref-doc:" + ("several-computed-coefficients-for-one-species" if shared else "written"))
+        run.count_case(("refs", rs), nontrivial=bool(out[1]))
+        if out[1] != out[2] and len(run.broken_correspondence) < 6:
+            run.broken_correspondence.append(f"species reference ids {out[1]} and the rules written for them {out[2]} differ: {spec['reactions']}")
+        ref_cases.append(f"({rs}, {clist('(' + cn(a) + ', ' + cn(b) + ')' for a, b in out[1])})")
+        ref_meta.append((spec["reactions"], out[1]))
+
+    lap("C2 reference ids")
     # ---- (D) whole-model round trip (oracle) ----------------------------------------------
     n_models = 500 if thorough else 70
     for i in range(n_models):
@@ -700,9 +1287,58 @@ def _run(run: Run, rng, scratch: Path, thorough: bool) -> None:  # noqa: ANN001
         run.count_case(("model", spec["module"], spec["parameters"], spec["variables"], spec["derived"], spec["reactions"]), nontrivial=kind in ("ok", "args", "fluxes", "rhs"))
         if i == 0:
             run.sample({"model": {k: spec[k] for k in ("parameters", "variables", "derived", "reactions")}, "module": spec["module"], "outcome": kind}, cap=4)
-        if bad and n_viol < 12:
-            n_viol += 1
+        if bad and may_report("model", 4):
             run.violation(f"export+import: {bad}", {"kind": "model", "spec": {k: v for k, v in spec.items() if k != "fns"}, "states": states})
+    lap("D models")
+    # ---- (E) sessions: several round trips in one interpreter session -------------------------
+    n_sess = 40 if thorough else 8
+    sessions = session_corpus() + [gen_session(rng, k) for k in range(n_sess)]
+    strip = lambda steps: [{**st, "spec": {k: v for k, v in st["spec"].items() if k != "fns"}} for st in steps]  # noqa: E731
+    for k, steps in enumerate(sessions):
+        kind, bad, _at = session_oracle(steps, scratch, f"s{k}")
+        bump("session:" + kind)
+        for st in steps[1:]:
+            bump("session-step:" + st["how"])
+        run.count_case(("session", [(st["dir"], st["how"], st["spec"]["module"], st["spec"]["parameters"], st["spec"]["variables"], st["spec"]["reactions"]) for st in steps]),
+                       nontrivial=kind == "ok" or kind.startswith("session-"))  # fmt: skip
+        if bad and may_report("session", 2):
+            run.violation(f"export+import: {bad}", {"kind": "session", "steps": strip(steps)})
+    lap("E sessions")
+    # the same under the interpreter's default settings (byte-code caching on): harness/c08_session.py in a subprocess
+    default_sessions = [strip(st) for st in sessions[: 2 + (4 if thorough else 2)]]
+    from harness import c08_session
+
+    traces = [gen_trace(rng, k) for k in range(12 if thorough else 4)]
+    bump_n = lambda key, n: dist.__setitem__(key, dist.get(key, 0) + n)  # noqa: E731
+    sess_cases, sess_meta = [], []
+    for k, ops in enumerate(traces[: len(traces) // 2]):  # in this process: byte-code caching off
+        got = trace_to_coq(ops, c08_session.run_trace(ops, scratch, f"p{k}"), bytecode=False)
+        if got:
+            sess_cases.append(got[0])
+            sess_meta.append(got[2])
+            bump_n("session-trace:reads-returning-another-document", got[1])
+    stale, dtraces = run_default_settings(default_sessions, scratch, traces=traces, want_traces=True)
+    for ops, tr in zip(traces, dtraces):  # under the interpreter's default settings: byte-code caching on, observed clock
+        got = trace_to_coq(ops, tr, bytecode=True)
+        if got:
+            sess_cases.append(got[0])
+            sess_meta.append(got[2])
+            bump_n("session-trace:reads-returning-another-document", got[1])
+    for c in sess_meta:
+        run.count_case(("trace", c.split(" observed=")[0]))
+    bump_n("session-trace:histories", len(sess_cases))
+    for k, res in enumerate(stale):
+        bump("session-default-settings:" + str(res[0]))
+        if res[0] == "driver-error":
+            run.note(f"session driver (default interpreter settings) failed on session {k}: {res[3] if len(res) > 3 else ''}")
+        elif res[1]:
+            what = f"export+import under the interpreter's default settings (byte-code caching on): {res[1]}"
+            if res[0].startswith("session-") and STALE_FINDING in known_ids:
+                if not any(fid == STALE_FINDING for fid, _w in KNOWN_SEEN):
+                    KNOWN_SEEN.append((STALE_FINDING, what))
+            elif may_report("session-default-settings", 2):
+                run.violation(what, {"kind": "session", "steps": default_sessions[k], "default_settings": True})
+    lap("E2 default-settings sessions + traces")
     run.coverage["input_distribution"] = dict(sorted(dist.items()))
 
     # ---- correspondence inside Coq -----------------------------------------------------
@@ -718,12 +1354,21 @@ def _run(run: Run, rng, scratch: Path, thorough: bool) -> None:  # noqa: ANN001
     if rxn_cases:
         files["c08_rxn"] = hdr + "Definition cases : list rxn_case := [\n  " + ";\n  ".join(rxn_cases) + "\n].\nEval vm_compute in rxn_mismatches cases.\n"
         index["c08_rxn"] = ("rxn", 0)
+    for k, chunk in enumerate(common.chunks(name_cases, 300)):
+        files[f"c08_names_{k:02d}"] = hdr + "Definition cases : list nameref_case := [\n  " + ";\n  ".join(chunk) + "\n].\nEval vm_compute in nameref_mismatches cases.\n"
+        index[f"c08_names_{k:02d}"] = ("names", k * 300)
+    if ref_cases:
+        files["c08_refs"] = hdr + "Definition cases : list refs_case := [\n  " + ";\n  ".join(ref_cases) + "\n].\nEval vm_compute in refs_mismatches cases.\n"
+        index["c08_refs"] = ("refs", 0)
+    if sess_cases:
+        files["c08_sess"] = hdr.replace("GenSbmlFacts Corr", "SbmlSession GenSbmlFacts Corr") + "Definition cases : list sess_case := [\n  " + ";\n  ".join(sess_cases) + "\n].\nEval vm_compute in sess_mismatches cases.\n"
+        index["c08_sess"] = ("sess", 0)
     if ia_cases:
         files["c08_ia"] = hdr + "Definition cases : list ia_case := [\n  " + ";\n  ".join(ia_cases) + "\n].\nEval vm_compute in ia_mismatches cases.\n"
         index["c08_ia"] = ("ia", 0)
     res = common.coq_eval_many(AREA, files, timeout_s=900)
     mism = 0
-    metas = {"math": math_meta, "id": id_meta, "rxn": rxn_meta, "ia": ia_meta}
+    metas = {"math": math_meta, "id": id_meta, "rxn": rxn_meta, "ia": ia_meta, "refs": ref_meta, "sess": sess_meta, "names": name_meta}
     for name in sorted(files):
         ok, out = res[name]
         lists = common.parse_eval_list(out) if ok else None
@@ -735,12 +1380,17 @@ def _run(run: Run, rng, scratch: Path, thorough: bool) -> None:  # noqa: ANN001
             mism += 1
             if len(run.broken_correspondence) < 6:
                 run.broken_correspondence.append(f"model/implementation disagree on {what} case #{base + j}: {metas[what][base + j]}")
-    total = len(math_cases) + len(id_cases) + len(rxn_cases) + len(ia_cases)
+    total = len(math_cases) + len(id_cases) + len(rxn_cases) + len(ia_cases) + len(ref_cases) + len(sess_cases) + len(name_cases)
     run.coverage["traces_validated_against_impl"] = total - mism
     run.coverage["correspondence_mismatches"] = mism
-    run.coverage["correspondence_cases"] = {"math": len(math_cases), "ids": len(id_cases), "reactions": len(rxn_cases), "initial_assignments": len(ia_cases)}
+    run.coverage["correspondence_cases"] = {"math": len(math_cases), "ids": len(id_cases), "reactions": len(rxn_cases), "initial_assignments": len(ia_cases),
+                                               "document_reference_ids": len(ref_cases), "session_histories": len(sess_cases), "document_identifiers": len(name_cases)}
 
+    lap("Coq correspondence")
     # ---- known findings ---------------------------------------------------------------
+    for fid, what in KNOWN_SEEN:
+        run.known(fid, what)
+    KNOWN_SEEN.clear()
     for kf in common.load_known_findings("C08"):
         if kf.get("id") == "names-needing-escaping":
             w = kf.get("witness", {}).get("name", "1x")
@@ -752,9 +1402,19 @@ def _run(run: Run, rng, scratch: Path, thorough: bool) -> None:  # noqa: ANN001
                 _kind, bad = roundtrip_oracle(wspec, scratch, "known-" + fid[:6], [None, {v[0]: 3.0 for v in wspec["variables"]}])
                 if bad:
                     run.known(fid, bad)
+    lap("known findings")
+    # the framework prints and stores the first four violations: one of every kind of case first
+    seen, first, rest = set(), [], []
+    for v in run.violations:
+        k = (v.replay.get("kind"), v.replay.get("default_settings"), (v.replay.get("spec") or {}).get("flags", [None])[-1:] == ["shared_ref"])
+        (rest if k in seen else first).append(v)
+        seen.add(k)
+    run.violations[:] = first + rest
 
 
 def replay(rep: dict) -> int:
+    import re
+
     r = rep["replay"]
     scratch = common.scratch_dir("c08replay")
     sys.path.insert(0, str(scratch))
@@ -768,6 +1428,25 @@ def replay(rep: dict) -> int:
             return 1 if bad else 0
         if r.get("kind") == "model":
             kind, bad = roundtrip_oracle(r["spec"], scratch, "replay", r["states"])
+            print("outcome:", kind, "\noracle:", bad or "property holds on this input")
+            return 1 if bad else 0
+        if r.get("kind") == "names":
+            out = name_doc_observed(r["doc"], scratch, "replay")
+            bad = None
+            if out[0] != "ok":
+                bad = f"sbml.write refuses: {out[1:]}"
+            elif out[2]:
+                bad = f"the written document uses identifiers that nothing declares: {out[2]}"
+            elif not (r["doc"]["computed"] and (re.search(r"[^0-9a-zA-Z_]", r["doc"]["W"]) or re.search(r"__\d+__", r["doc"]["W"]))):
+                bad = positional_roundtrip(r["doc"], scratch, out[3])
+            print("oracle:", bad or "property holds on this input")
+            return 1 if bad else 0
+        if r.get("kind") == "session":
+            if r.get("default_settings"):
+                res = run_default_settings([r["steps"]], scratch)[0]
+                kind, bad = res[0], res[1]
+            else:
+                kind, bad, _at = session_oracle(r["steps"], scratch, "replay")
             print("outcome:", kind, "\noracle:", bad or "property holds on this input")
             return 1 if bad else 0
         if r.get("kind") == "id":
